@@ -79,8 +79,11 @@ TIME_REVERSAL_INVARIANT = ['Periodogram', 'pcorrelogram', 'pyule', 'pburg', 'pmo
 ONESIDED_IS_TWICE_HALF = ['pburg', 'pyule', 'pcovar', 'pmodcovar', 'parma', 'pma', 'pminvar', 'MultiTapering']
 
 
+SBF = [False]          # scale_by_freq of the objects of the current case (both sides of every relation carry the same 2*pi/df)
+
+
 def psd_of(cls, x, cfg, NFFT, sampling=1.0, route='fresh', prev=None):
-    p = E.build(cls, x, cfg, NFFT=NFFT, sampling=sampling, scale_by_freq=False, route=route, prev=prev)
+    p = E.build(cls, x, cfg, NFFT=NFFT, sampling=sampling, scale_by_freq=SBF[0], route=route, prev=prev)
     return np.array(p.psd)
 
 
@@ -126,6 +129,7 @@ def replay(rep):
     if r['datatype'] == 'real':
         x = np.real(x)
     try:
+        SBF[0] = bool(r.get('scale_by_freq', False))
         return check_case(r['clause'], r['estimator'], x, r['cfg'], r['NFFT'], r.get('m', 0), route=r.get('route', 'fresh')) is None
     except Exception:
         return False
@@ -260,6 +264,7 @@ def run(ctx):
         NFFT = int(rng.choice([N, N + 1, N + 2, N + 5, 2 * N, 2 * N + 1, 64, 67])); NFFT = max(NFFT, N)
         # the first pass over the plan: real samples declared complex (zero imaginary part), for every clause and class
         x, kind = E.gen_data(rng, N, True, 'realc' if it < len(plan) else None)
+        SBF[0] = bool(rng.integers(0, 3) == 0)   # every relation also holds with the 2*pi/df scaling switched on
         route = E.pick_route(rng)               # how the object holding the transformed data got them (fresh / re-assigned)
         ctx.count('search/route/%s' % route)
         cfg = E.default_cfg(cls, N, rng, True)
@@ -272,7 +277,7 @@ def run(ctx):
         ctx.count('search/%s/%s/%s' % (clause, cls, 'NFFT-even' if NFFT % 2 == 0 else 'NFFT-odd'))
         ctx.case((clause, cls, json.dumps(jcfg(cfg), sort_keys=True), NFFT, m, x.tobytes()), nontrivial=(clause != 'shift' or m % NFFT != 0),
                  sample={'clause': clause, 'estimator': cls, 'cfg': jcfg(cfg), 'N': N, 'NFFT': NFFT, 'm': m, 'kind': kind})
-        rep = {'clause': clause, 'estimator': cls, 'cfg': jcfg(cfg), 'NFFT': NFFT, 'm': m, 'x': vlib.hexv(x), 'datatype': tag, 'route': route}
+        rep = {'clause': clause, 'estimator': cls, 'cfg': jcfg(cfg), 'NFFT': NFFT, 'm': m, 'x': vlib.hexv(x), 'datatype': tag, 'route': route, 'scale_by_freq': SBF[0]}
         try:
             what = check_case(clause, cls, x, cfg, NFFT, m, route=route)
         except Exception as e:
